@@ -4,6 +4,7 @@
 package main
 
 import (
+	"bytes"
 	"encoding/json"
 	"fmt"
 	"os"
@@ -114,6 +115,44 @@ func checkPair(old, new []byte) (vs []kit.V, hunks int) {
 			What: fmt.Sprintf("Diff(%q, %q) = %q: %s", old, new, out, msg),
 			Case: kase{Old: append([]byte(nil), old...), New: append([]byte(nil), new...)},
 		})
+	}
+	if msg == "" && len(old) <= 6 && len(new) <= 6 {
+		// The same texts as the heads of larger buffers (slices with spare
+		// capacity): same output, the texts untouched, nothing written behind them.
+		mk := func(x []byte) []byte {
+			b := make([]byte, len(x)+8)
+			copy(b, x)
+			for i := len(x); i < len(b); i++ {
+				b[i] = 0xA5
+			}
+			return b
+		}
+		intact := func(b, x []byte) bool {
+			for _, c := range b[len(x):] {
+				if c != 0xA5 {
+					return false
+				}
+			}
+			return bytes.Equal(b[:len(x)], x)
+		}
+		bo, bn := mk(old), mk(new)
+		out2, pan2 := diffSafe(bo[:len(old)], bn[:len(new)])
+		what := ""
+		switch {
+		case pan2 != nil:
+			what = fmt.Sprintf("panics when the texts are the heads of larger buffers: %v", pan2)
+		case !intact(bo, old) || !intact(bn, new):
+			what = fmt.Sprintf("changed its arguments or the bytes behind them: the buffers now hold %q and %q", bo, bn)
+		case !bytes.Equal(out2, out):
+			what = fmt.Sprintf("gives %q for slices of exact capacity and %q for the same texts at the heads of larger buffers", out, out2)
+		}
+		if what != "" {
+			vs = append(vs, kit.V{
+				Key:  fmt.Sprintf("arguments-with-spare-capacity old=%s new=%s", kit.Q(old), kit.Q(new)),
+				What: fmt.Sprintf("Diff(%q, %q) %s", old, new, what),
+				Case: kase{Old: append([]byte(nil), old...), New: append([]byte(nil), new...)},
+			})
+		}
 	}
 	return vs, hunks
 }
